@@ -171,6 +171,12 @@ def c09(cx):
                 what="real history store on a grid of timeslots (before/at origin, +2^30-1, +2^30, +2^31, 2^32-1) x values, every grid key re-read after every save")
     cx.validate("Trace_Client", "Trace_C09.cfg", r["trace"],
                 what="report loop single-stepped over evolving energy files (append, rewrite, duplicate with other value, reorder, drop) with restarts")
+    r = cx.drv_ok("recover")
+    cx.validate("Trace_System", "Trace_System.cfg", r["trace"] + ".sys", {"AllValues": "TRUE"},
+                what="originals and retransmissions through a lossy relay and real sync rounds: all datagrams of a timeslot identical")
+    r = cx.drv_ok("recover", ["--only", "unfit"])
+    cx.validate("Trace_System", "Trace_System.cfg", r["trace"] + ".sys", {"AllValues": "TRUE"},
+                what="the same with readings outside 32 signed bits (known finding C09-int32-truncation)")
 
 
 def c10(cx):
@@ -225,7 +231,23 @@ def c17(cx):
     cx.validate("Trace_Server", "Trace_C17.cfg", r["trace"], what="server: server authorizations and migration orders signed by each candidate key")
 
 
-PLANS = {"C01": c01, "C02": c02, "C03": c03, "C04": c04, "C06": c06, "C07": c07, "C09": c09, "C10": c10, "C11": c11, "C16": c16, "C17": c17, "C18": c18, "C19": c19, "C20": c20}
+def c08(cx):
+    cx.assumptions += ["the relay's decisions (drop / deliver / duplicate / hold and deliver late in another order) are taken per datagram from a seeded generator",
+                       "identity of retransmissions is judged on a digest of the 80 bytes taken at the client's send hook; as the property says it is "
+                       "required for readings that fit 32 signed bits",
+                       "the eventuality is checked in its safety form: at the quiescent point after a fault-free round and delivery of everything held"]
+    q = cx.tier == QUICK
+    cx.mc("MC_History", "MC_History.cfg", {"MaxEdits": 2, "Unfit": "FALSE"},
+          note="client side: retransmissions (Resend) anywhere between file edits, loop iterations and restarts: NoEquivocation, SentIsStored")
+    cx.mc("MC_Rotate", "MC_SyncBits.cfg", {"MaxNow": 8, "MaxReports": 1 if q else 2},
+          note="server side: the bitfield the client resends from is exact in every state (SyncBitsOK)")
+    r = cx.drv_ok("recover")
+    cx.validate("Trace_Server", "Trace_C08.cfg", r["trace"], what="server events of the recovery histories (reports via the relay, sync replies, rotation, restart)")
+    cx.validate("Trace_System", "Trace_System.cfg", r["trace"] + ".sys", {"AllValues": "FALSE"},
+                what="Recovered at every quiescent point, RetransmitIdentical for all datagrams of a timeslot")
+
+
+PLANS = {"C01": c01, "C02": c02, "C03": c03, "C04": c04, "C06": c06, "C07": c07, "C08": c08, "C09": c09, "C10": c10, "C11": c11, "C16": c16, "C17": c17, "C18": c18, "C19": c19, "C20": c20}
 
 
 def replay(cx, path):
